@@ -102,6 +102,7 @@ type rCase struct {
 	build          func(wrap func(api.RateFunction) api.RateFunction) (*api.Trigger, error)
 	bodyMaxUs      int
 	bodyFixedUs    int // every body takes this long
+	teardownMode   string // a cleanup registered by the setup fails this way when the run is over
 	failEvery      int
 	mixNames       bool   // consecutive runs on one metrics instance use different scenario names
 	scnName        string // scenario name of this run ("" = scn)
@@ -456,6 +457,9 @@ func runOne(c *ctx, rc rCase, m *metrics.Metrics) rTrace {
 		lightRaw = make([]string, 2_000_000)
 	}
 	fn := func(t *f1testing.T) f1testing.RunFn {
+		if rc.teardownMode != "" && !rec.priming.Load() {
+			t.Cleanup(func() { failWith(t, rc.teardownMode) })
+		}
 		t.Cleanup(func() { rec.add(rEv{K: "setupcleanup", A: live.Load(), C: rec.us()}) })
 		if rc.cfg.SetupFail && !rec.priming.Load() {
 			if rc.cfg.SetupUs > 0 {
@@ -804,8 +808,12 @@ func runOne(c *ctx, rc rCase, m *metrics.Metrics) rTrace {
 	default:
 		rec.add(rEv{K: "rv", A: 0})
 	}
+	verdict := "passed"
+	if strings.HasPrefix(flags, "failed;") {
+		verdict = "failed"
+	}
 	rec.add(rEv{K: "ret", A: int64(snap.SuccessfulIterationDurations.Count), B: int64(snap.FailedIterationDurations.Count),
-		D: int64(snap.DroppedIterationCount), C: tret, S: flags})
+		D: int64(snap.DroppedIterationCount), C: tret, S: flags, S2: verdict})
 	// exported metrics, flattened; the harness checks each series' label SET (keys and static pairing)
 	if fams, err := mm.Registry.Gather(); err == nil {
 		for _, f := range fams {
@@ -1185,6 +1193,17 @@ func buildCases(c *ctx) []rCase {
 		rsi := constantCase("interrupt-during-failing-setup", "5/10ms", 10*ms, 2, 0, 2000*ms, "none")
 		rsi.cfg.SetupFail, rsi.cfg.SetupMode, rsi.cfg.SetupUs, rsi.cfg.CancelUs = true, []string{"fail", "failnow", "panic-error"}[c.rng.Intn(3)], 70*ms, 20*ms
 		add(viaCLI(rsi, "constant", "-r", "5/10ms", "--distribution", "none"))
+		// every iteration passes, a cleanup registered by the setup fails: a failed run, and its summary says so
+		for k, api := range []bool{false, true} {
+			rt := constantCase("teardown-fails", "4/20ms", 20*ms, 3, 0, 200*ms, "none")
+			rt.teardownMode = []string{"fail", "panic-error", "failnow", "require", "panic-string"}[(k+int(c.seed))%5]
+			rt.bodyMaxUs = 2000
+			if api {
+				add(rt)
+			} else {
+				add(viaCLI(rt, "constant", "-r", "4/20ms", "--distribution", "none"))
+			}
+		}
 		// a rate per a FRACTIONAL number of units ticks at exactly that interval (2/2.9ms is not 2/2ms)
 		for _, api := range []bool{false, true} {
 			rf := constantCase("fractional-interval", "2/2.9ms", 2900, 4, 0, 300*ms, "none")
